@@ -161,7 +161,7 @@ fn launch_analysis_thread(analyzer: Arc<Mutex<Analyzer>>, doc: a2kit::lang::Docu
                 let forced = match ws_scan {
                     WorkspaceScanMethod::None => false,
                     WorkspaceScanMethod::UseCheckpoints => {
-                        match analyzer.rescan_workspace(false) {
+                        match analyzer.rescan_workspace_with(&doc) {
                             _ => false
                         }
                     },
